@@ -5,6 +5,7 @@ patch="$1"; id="$2"; tier="${3:-quick}"
 cd /repo || exit 2
 if ! git diff --quiet; then echo "refusing: /repo has uncommitted changes"; exit 2; fi
 git apply "$patch" || { echo "patch does not apply"; exit 2; }
+if git diff --quiet; then echo "patch not applied"; exit 2; fi
 out=$(cd /verif && VERIF_ROOT=/tmp/vr-seeded ./check "$id" "$tier" 2>&1)
 rc=$?
 git -C /repo checkout -- . ; git -C /repo clean -fdq -- . >/dev/null 2>&1
